@@ -30,7 +30,7 @@ AbsComment(c) == [path |-> c.path, line |-> c.line, text |-> AbsText(c.path, c.t
 AbsComments(s) == [k \in 1..Len(s) |-> AbsComment(s[k])]
 AbsPending(s) == [k \in 1..Len(s) |-> [path |-> s[k].path, line |-> s[k].line, text |-> AbsText(s[k].path, s[k].tid, s[k].carries)]]
 
-TraceInit == Init /\ l = 1 /\ cid = 0 /\ done = FALSE /\ tcfg = [plat |-> "none", max |-> 0, strip |-> FALSE]
+TraceInit == Init /\ l = 1 /\ cid = 0 /\ done = FALSE /\ tcfg = [plat |-> "none", max |-> 0, strip |-> FALSE, pad |-> 0, padf |-> 0]
              /\ tstore = <<>> /\ tprev = NoInp /\ tprevCreates = 0 - 1 /\ tstreak = 0 /\ tmap = {}
 
 \* pairs <<text of the spec, interned id of the real text>> seen in this case must be a bijection
@@ -39,7 +39,7 @@ Bijective(S) == \A a, b \in S : (a[1] = b[1]) <=> (a[2] = b[2])
 TCase ==
   /\ l <= Len(TraceLog) /\ Rec.ev = "Case"
   /\ cid' = Rec.id
-  /\ tcfg' = [plat |-> Rec.plat, max |-> Rec.max, strip |-> Rec.strip]
+  /\ tcfg' = [plat |-> Rec.plat, max |-> Rec.max, strip |-> Rec.strip, pad |-> Rec.pad, padf |-> Rec.padf]
   /\ tstore' = AbsComments(Rec.store)
   /\ tprev' = NoInp /\ tprevCreates' = 0 - 1 /\ tstreak' = 0
   /\ tmap' = {<<[g |-> Rec.store[k].atext.g, m |-> RangeSeq(Rec.store[k].atext.m), s |-> Rec.store[k].atext.s], Rec.store[k].tid>> :
@@ -49,7 +49,7 @@ TCase ==
      ELSE PrintT(<<"DRIFT", Rec.id, ToJson([what |-> "seed text", store |-> Rec.store])>>)
   /\ l' = l + 1 /\ UNCHANGED <<vars, done>>
 
-Sig(fails, o, rn) == [plat |-> o.plat, max |-> o.max, strip |-> tcfg.strip, run |-> rn, fails |-> fails,
+Sig(fails, o, rn) == [plat |-> o.plat, max |-> o.max, strip |-> tcfg.strip, pad |-> tcfg.pad, padf |-> tcfg.padf, run |-> rn, fails |-> fails,
                       reports |-> o.reports, var |-> o.var, prevSame |-> o.prevSame, prevCreates |-> o.prevCreates,
                       streak |-> o.streak,
                       before |-> [k \in 1..Len(o.before) |-> [path |-> o.before[k].path, line |-> o.before[k].line,
